@@ -175,9 +175,22 @@ def _events(args):
         G = rng.standard_normal((m, n, 4)) * 10.0 ** rng.integers(-200, 200)
         if k % 5 == 0:
             G[rng.random((m, n)) < 0.5] = 0.0
+        if k % 4 == 1:
+            # entries of very different magnitudes INSIDE one matrix (graded columns, tiny imaginary parts on O(1) reals,
+            # negative zeros): the round trip is exact whatever the spread - no "noise floor" may be applied
+            G = rng.standard_normal((m, n, 4)) * 2.0 ** rng.integers(-300, 300, (m, n, 4)).astype(float)
+            G[..., 1:] *= 2.0 ** -70
+            G[0, 0, 0] = 1.0
+            if m * n > 1:
+                G[-1, -1] = [-0.0, 0.0, -0.0, 2.0 ** -1000]
         C = q_to_float(u.real_contract(u.real_expand(q_from_float(G)), m, n))
         add({"op": "flag", "clause": "RoundTrip", "fn": "real_contract", "ok": bool(sha(C) == sha(G)),
              "shape": [m, n]})
+        if k % 4 == 1:
+            # contraction of a real matrix assembled OUTSIDE the library (a product formed in the real domain)
+            R2 = u.real_expand(q_from_float(G))
+            back = q_to_float(u.real_contract(R2.copy(), m, n))
+            add({"op": "flag", "clause": "RoundTrip", "fn": "real_contract", "ok": bool(np.array_equal(back, G)), "shape": [m, n], "graded": True})
         # float homomorphism: expand(A) expand(B) vs expand(AB) to rounding
         k2 = int(rng.integers(1, 5))
         A1 = rng.standard_normal((m, k2, 4))
